@@ -128,7 +128,8 @@ CLAIMED["C05"] = dict(
          " Every occurrence of a reference is rewritten (no count limit at the substitution sites); a skipped placeholder has consumed its instances first. Two reproduced limitations of loop bindings (replicated looped producer, loop-to-loop binding) are listed as observed known findings."
          " On a restart only the placeholders of stages strictly before the starting stage are frozen."
          " A pattern for the '<iteration>#' prefix admits every decimal number."
-         " The placeholder table is updated in place, never rebound outside __init__.",
+         " The placeholder table is updated in place, never rebound outside __init__."
+         " rewrite_all_references substitutes all references of a string in one pass (no substitution of the string inside the loop over its references).",
     technique="sibling cross-check lint over sort keys, format/parser agreement, CFG edge-dominance, SUB, "
               "reaching-definition alias analysis (who-may-write)",
     design="3/C05")
